@@ -21,16 +21,50 @@ type mapOrder struct {
 
 var curMapOrder atomic.Value // *mapOrder
 
-// Map-site visit counters (per site hash, sites that saw >= 2 keys), for reach probes.
-// Only maintained when no scheduler is attached (single task), so no synchronisation.
-var MapSiteVisits = map[string]int{}
-var mapVisitsOn bool
+// Map-site visit counters (sites that saw >= 2 keys), for reach probes and culprit analysis.
+// A fixed array touched only from //go:norace code: builds run as tasks of the scheduler, and
+// code under test may start tasks of its own.
+const mapVisitCap = 1024
 
+var (
+	mapVisitsOn   bool
+	mapVisitSites [mapVisitCap]uint32
+	mapVisitN     int
+)
+
+//go:norace
 func CountMapVisits(on bool) {
 	mapVisitsOn = on
 	if on {
-		MapSiteVisits = map[string]int{}
+		mapVisitN = 0
 	}
+}
+
+//go:norace
+func noteMapVisit(h uint32) {
+	if !mapVisitsOn {
+		return
+	}
+	for i := 0; i < mapVisitN; i++ {
+		if mapVisitSites[i] == h {
+			return
+		}
+	}
+	if mapVisitN < mapVisitCap {
+		mapVisitSites[mapVisitN] = h
+		mapVisitN++
+	}
+}
+
+// MapSitesVisited returns the names of the sites that iterated over >= 2 keys since CountMapVisits(true).
+//go:norace
+func MapSitesVisited() []string {
+	out := make([]string, 0, mapVisitN)
+	for i := 0; i < mapVisitN; i++ {
+		out = append(out, SiteName(mapVisitSites[i]))
+	}
+	sort.Strings(out)
+	return out
 }
 
 // SetMapOrder installs a permutation. mode 0 = canonical (sorted) order, 1 = PRNG
@@ -60,14 +94,12 @@ func MapKeys[K comparable, V any](m map[K]V, site string) []K {
 		return keys
 	}
 	sortKeys(keys)
-	if mapVisitsOn && !Active() {
-		MapSiteVisits[site]++
-	}
+	h := siteHash(site)
+	noteMapVisit(h)
 	mo, _ := curMapOrder.Load().(*mapOrder)
 	if mo == nil || mo.mode == 0 {
 		return keys
 	}
-	h := siteHash(site)
 	if mo.sites != nil && !mo.sites[h] {
 		return keys
 	}
